@@ -567,17 +567,98 @@ pub fn run(run: &mut Run) {
     st.states = st.evaluations;
     st.transitions = st.evaluations;
     st.traces_validated = st.evaluations;
-    run.rule = "every string over the 28-character alphabet up to the length bound, every sequence of lexeme atoms up to the bound (with/without separators), plus the repository's .sy files; non-trivial = the implementation produced at least two tokens; distinct by text".into();
+    run.rule = "every string over the 28-character alphabet up to the length bound, every sequence of lexeme atoms up to the bound (with/without separators), plus the repository's .sy files; plus, end to end through the compiler, 270 files (9 preceding-text shapes x 5 syntax errors with a known offending token x 3 indentations x LF / CRLF) whose first reported error span must be that token's place in the file; non-trivial = the implementation produced at least two tokens; distinct by text".into();
     run.bounds = json!({"char_alphabet": CHARS, "max_chars": maxlen, "atoms": at.len(), "atom_seq_len": 3, "atom_separators_len3": seps3});
     run.assumptions = vec![
         "reference lexer = DESIGN.md Appendix D (longest match; keyword>identifier; numeric conversion failure = error token)".into(),
         "on inputs where the reference finds an error token only the prefix before it is compared for kinds; tiling and positions are checked as far as token extents are defined".into(),
         "for a token that contains newlines only its start position is compared; every following token is compared in full".into(),
     ];
+    end_to_end(&mut st);
     run.stats = st;
+}
+
+/// positions as a user sees them: the span of the first syntax error the compiler reports for a file must be the span
+/// the reference lexer and line index give the offending token in that file's text (whatever the loader does to
+/// the text before it reaches the tokenizer)
+fn end_to_end_case(text: &str, designated: &dyn Fn(&[(K, usize, usize)]) -> Option<usize>) -> Option<Result<(), (String, String)>> {
+    use crate::harness::*;
+    let rf = ref_lex(text);
+    let lc = line_col(text);
+    let k = designated(&rf)?;
+    let (_, sb, eb) = rf[k].clone();
+    let (line, cs) = lc[sb];
+    let (line_e, ce) = lc[eb];
+    let want_ce = if line_e == line { ce } else { cs + text[sb..eb].chars().count() };
+    let got = match compile_src(text) {
+        Outcome::Err { errs, .. } if !errs.is_empty() => (errs[0].kind, errs[0].line, errs[0].col_start, errs[0].col_end),
+        other => return Some(Err(("end-to-end-no-error".into(), format!("expected a syntax error, got {}\n{:?}", other.short(), text)))),
+    };
+    if got.0 != "SyntaxError" {
+        return None;
+    }
+    if (got.1, got.2, got.3) == (line, cs, want_ce) {
+        Some(Ok(()))
+    } else {
+        Some(Err(("end-to-end-position".into(), format!("the first error is reported at line {} columns {}..{}, the offending token {:?} lies at line {} columns {}..{} of the file\n{:?}", got.1, got.2, got.3, &text[sb..eb], line, cs, want_ce, text))))
+    }
+}
+
+fn end_to_end(st: &mut Stats) {
+    let prefixes: [&str; 9] = ["", "y := 1{E}", "// ü comment{E}", "s := \"é€\"{E}", "s := \"a{E}b\"{E}", "s := \"ü{E}{E}\"{E}", "{E}{E}", "\ty := 1 // c{E}", "f :: fn do{E}    y := 1{E}end{E}"];
+    let forms: [(&str, &str); 5] = [
+        ("stray-paren", "bad := ){E}"),
+        ("dangling-plus", "bad := 1 +{E}z := 2{E}"),
+        ("second-expression", "bad := 1 2{E}"),
+        ("after-multi-line-string", "t := \"a{E}b\" ){E}"),
+        ("after-non-ascii-string", "t := \"åäö\" ){E}"),
+    ];
+    for eol in ["\n", "\r\n"] {
+        for indent in ["", "  ", "\t"] {
+            for p in prefixes {
+                for (fname, f) in forms {
+                    let text = format!("{}{}{}", p, indent, f).replace("{E}", eol);
+                    // the offending token: the last `)`, the newline after the dangling `+`, the literal 2
+                    let designated = |rf: &[(K, usize, usize)]| -> Option<usize> {
+                        match fname {
+                            "dangling-plus" => rf.iter().position(|(k, _, _)| *k == K::Op("Plus")).map(|i| i + 1),
+                            "second-expression" => rf.iter().rposition(|(k, _, _)| *k == K::Int),
+                            _ => rf.iter().rposition(|(k, _, _)| *k == K::Op("RightParen")),
+                        }
+                    };
+                    st.evaluations += 1;
+                    match end_to_end_case(&text, &designated) {
+                        None => st.count("end-to-end-skipped", 1),
+                        Some(Ok(())) => {
+                            st.outcome("end-to-end:error-span-is-the-token's-place-in-the-file");
+                            st.nontrivial(crate::harness::fnv(text.as_bytes()));
+                        }
+                        Some(Err((sig, detail))) => {
+                            st.outcome(&sig);
+                            st.fail(Failure { sig, preds: vec![], detail, case: json!({"engine": "c17-e2e", "text": text, "form": fname}), size: text.len() });
+                        }
+                    }
+                }
+            }
+        }
+    }
 }
 
 pub fn replay(case: &serde_json::Value) -> Option<(String, String)> {
     let text = case["text"].as_str()?;
+    if case["engine"] == "c17-e2e" {
+        let fname = case["form"].as_str()?.to_string();
+        let designated = move |rf: &[(K, usize, usize)]| -> Option<usize> {
+            match fname.as_str() {
+                "dangling-plus" => rf.iter().position(|(k, _, _)| *k == K::Op("Plus")).map(|i| i + 1),
+                "second-expression" => rf.iter().rposition(|(k, _, _)| *k == K::Int),
+                _ => rf.iter().rposition(|(k, _, _)| *k == K::Op("RightParen")),
+            }
+        };
+        return match end_to_end_case(text, &designated) {
+            Some(Err(e)) => Some(e),
+            _ => None,
+        };
+    }
     judge(text).fail
 }
